@@ -1,5 +1,8 @@
 import runner as R
 from props import *
+import C04_more
+
+LEAN_MODULES = ['C09', 'C09m']
 
 MANIFEST = dict(
     text="Proved in Lean: a machine holding a CtxSafe certificate (invariant: every stored context is derived from the subscription context; every reaction emits only derived contexts) delivers, "
@@ -42,6 +45,7 @@ def check(ctx):
     R.compare(ctx, rows, proj_ctx, 'C09 context markers of every delivered notification (single operators)', oracle=oracle_ctx, nontrivial=nontrivial_op)
     rows = R.run_kind(ctx, 'chains')
     R.compare(ctx, rows, proj_ctx, 'C09 context markers through chains', oracle=oracle_ctx, nontrivial=lambda c, gd: gd.get('trace', '-') != '-')
+    C04_more.parts_C09(ctx)
     names = {r['Name']: r for r in catalogue()}
     r = names.get('ToChannel')
     if r and any(c['Prov'] == 'todo' for c in (r['CtxRows'] or [])):
